@@ -106,13 +106,17 @@ observation `res=<true|false|ok|err> at=<point> | <snapshot>` -/
 structure Race where
   cause : String
   nc : Nat
+  chain : Bool
+  tgt : Nat
   spawnl : Bool
   j : Nat
 
 def parseRace? (ws : List String) : Option Race := do
   let get (k : String) : Option String :=
     (ws.find? (·.startsWith (k ++ "="))).map (fun w => (w.drop (k.length + 1)).toString)
-  pure { cause := ← get "cause", nc := ← (← get "nc").toNat?, spawnl := (← get "kind") == "spawnl", j := ← (← get "j").toNat? }
+  pure { cause := ← get "cause", nc := ← (← get "nc").toNat?, chain := (get "shape") == some "chain",
+         tgt := ((get "tgt").bind (·.toNat?)).getD 0,
+         spawnl := (← get "kind") == "spawnl", j := ← (← get "j").toNat? }
 
 /-- what of the supervisor's exit has been executed, read off the names of the schedule points
 that started the executed regions: worklist visits (`tree.take`), the first `status.publish`
@@ -162,15 +166,16 @@ def raceModel (r : Race) (pts : List String) : MState × String × Nat × State 
   -- supervisor 0, children 1..nc, then the orphan (link) or the new child in `Starting` (spawn_linked)
   let s0 := setStatus (spawn init) 0 .running
   let s1 := (List.range r.nc).foldl (fun s i =>
-    setStatus (link (spawn s) (i + 1) 0).1 (i + 1) .running) s0
+    setStatus (link (spawn s) (i + 1) (if r.chain then i else 0)).1 (i + 1) .running) s0
+  let d := min r.tgt r.nc
   let c := r.nc + 1
   let s2 := if r.spawnl then spawn s1 else setStatus (spawn s1) c .running
   let s3 := if r.cause == "drain" then setStatus s2 0 .draining else s2
   let kill := r.cause == "kill"
   let g := progressOf pts
   let k := stepsFor kill s3 0 g
-  let mid := (link (xrun codeFixed 0 k (xinit kill 0 s3)).t c 0).1
-  let (x, res) := raceRun codeFixed kill s3 0 c 0 k (4 * s3.n + 32)
+  let mid := (link (xrun codeFixed 0 k (xinit kill 0 s3)).t c d).1
+  let (x, res) := raceRun codeFixed kill s3 0 c d k (4 * s3.n + 32)
   let m0 : MState := { t := x.t, act := upd (fun _ => {}) 0 { gone := true } }
   -- spawn_linked: a refused link fails the spawn (the new cell is cleaned up), an accepted one goes on to Running
   let m1 := if r.spawnl then
